@@ -83,6 +83,13 @@ def programs(tier, seed):
             else:
                 calls.append({"g": "Wrap", "kw": rnd.choice(plains), "n": rnd.randint(1, 3)})
         progs.append({"id": f"pgen#{len(progs)}", "kind": "pgen", "calls": calls, "earlier": earlier})
+    # hierarchies run through the separate flatten() utility before export
+    from . import c16
+    leaves = dict(U.LEAVES)
+    leaves["Mos"] = [{"n": x, "w": 1} for x in ("d", "g", "s", "b")]
+    for k in range(10 if tier == "quick" else 60):
+        fam, D = c16.random_hier(rnd, leaves)
+        progs.append({"id": f"flat#{len(progs)}", "kind": "flat", "D": D, "style": "proc"})
     return progs
 
 
@@ -153,6 +160,6 @@ def run(tier, seed, replay_file=None):
             fam = pidk.split("#")[0]
             o.violations.append(Violation(clause="output_differs_between_processes", case={"programs": [byprog[pidk]] if pidk in byprog else [], "key": key, "hashseed": envs[tid][0]},
                                           features=["fam_" + fam, "format_" + key.split("|")[-1]], detail={"values": sorted(vals.get(key, []))}))
-    o.required_cover = ["fam_multi_port", "fam_U_bundle", "fam_U_pref", "fam_U_hier", "fam_pgen", "environments"]
+    o.required_cover = ["fam_multi_port", "fam_U_bundle", "fam_U_pref", "fam_U_hier", "fam_pgen", "fam_flat", "environments"]
     o.samples = [{"program": progs[0]["id"], "outputs": [x for x in traces[0] if x["key"].startswith(progs[0]["id"] + "|")]}]
     return o
